@@ -463,6 +463,48 @@ fn ints_through_bridge(g: &mut Gen, st: &mut Stats) -> CaseResult {
     Ok(())
 }
 
+/// Both codecs on ONE stream: a `Serializer` hands out its `Encoder` (`encoder_mut`, `into_encoder`, `From<Encoder>`) and a
+/// `Deserializer` its `Decoder` (`decoder_mut`, `into_decoder`, `From<Decoder>`), so a program may write one value through
+/// serde and the next through the native traits. For shared types the stream is the concatenation of the values' encodings
+/// whichever side writes which, and each side reads what the other wrote, in any interleaving, ending at the end.
+fn interleaved(g: &mut Gen, st: &mut Stats) -> CaseResult {
+    use serde::Deserialize as _;
+    st.eval();
+    #[derive(Debug, Clone, PartialEq)]
+    enum V { U(u64), S(String), T((u8, bool, i32)), O(Option<String>), L(Vec<u16>), N(()) }
+    let n = 1 + g.below(8);
+    let vals: Vec<V> = (0 .. n).map(|_| match g.below(6) { 0 => V::U(g.u64()), 1 => V::S(g.string(12)), 2 => V::T((g.u8(), g.bool(), g.i32())), 3 => V::O(if g.bool() { None } else { Some(g.string(5)) }), 4 => V::L((0 .. g.below(5)).map(|_| g.u16()).collect()), _ => V::N(()) }).collect();
+    let side_w: Vec<bool> = (0 .. n).map(|_| g.bool()).collect();
+    let side_r: Vec<bool> = (0 .. n).map(|_| g.bool()).collect();
+    // expected stream
+    let mut want = Vec::new();
+    for v in &vals { let b = match v { V::U(x) => minicbor::to_vec(x), V::S(x) => minicbor::to_vec(x), V::T(x) => minicbor::to_vec(x), V::O(x) => minicbor::to_vec(x), V::L(x) => minicbor::to_vec(x), V::N(x) => minicbor::to_vec(x) }.map_err(|e| vcore::Fail::new("native-encode", e.to_string()))?; want.extend_from_slice(&b) }
+    scoped("interleaved", || {
+        // writing: start from either wrapper
+        let mut ser = if g.bool() { minicbor_serde::Serializer::new(Vec::new()) } else { minicbor_serde::Serializer::from(minicbor::Encoder::new(Vec::new())) };
+        for (v, bridge) in vals.iter().zip(&side_w) {
+            macro_rules! put { ($x:expr) => { if *bridge { $x.serialize(&mut ser).map_err(|e| vcore::Fail::new("bridge-encode", e.to_string()))?; } else { ser.encoder_mut().encode($x).map_err(|e| vcore::Fail::new("native-encode", e.to_string()))?; } } }
+            match v { V::U(x) => put!(x), V::S(x) => put!(x), V::T(x) => put!(x), V::O(x) => put!(x), V::L(x) => put!(x), V::N(x) => put!(x) }
+        }
+        ensure!(ser.encoder().writer() == &want, "interleaved-bytes", "values {:?} written alternately (bridge: {:?}) give {}, the concatenation of their encodings is {}", vals, side_w, short_hex(ser.encoder().writer()), short_hex(&want));
+        let out = ser.into_encoder().into_writer();
+        ensure!(out == want, "interleaved-bytes", "into_encoder().into_writer() gives {}, expected {}", short_hex(&out), short_hex(&want));
+        // reading
+        let mut de = if g.bool() { minicbor_serde::Deserializer::new(&want) } else { minicbor_serde::Deserializer::from(minicbor::Decoder::new(&want)) };
+        for (i, (v, bridge)) in vals.iter().zip(&side_r).enumerate() {
+            macro_rules! get { ($t:ty, $mk:expr) => {{ let x: $t = if *bridge { <$t>::deserialize(&mut de).map_err(|e| vcore::Fail::new("interleaved-read", format!("value {} of {:?} through the bridge (sides {:?}) from {}: {}", i, vals, side_r, short_hex(&want), e)))? } else { de.decoder_mut().decode().map_err(|e| vcore::Fail::new("interleaved-read", format!("value {} of {:?} natively (sides {:?}) from {}: {}", i, vals, side_r, short_hex(&want), e)))? }; $mk(x) }} }
+            let got = match v { V::U(_) => get!(u64, V::U), V::S(_) => get!(String, V::S), V::T(_) => get!((u8, bool, i32), V::T), V::O(_) => get!(Option<String>, V::O), V::L(_) => get!(Vec<u16>, V::L), V::N(_) => get!((), V::N) };
+            ensure!(&got == v, "interleaved-value", "value {} read back as {:?}, written {:?} (stream {}, reading sides {:?})", i, got, v, short_hex(&want), side_r);
+        }
+        ensure!(de.decoder().position() == want.len(), "interleaved-position", "after reading all {} values the decoder stands at {} of {}", n, de.decoder().position(), want.len());
+        let d = de.into_decoder();
+        ensure!(d.position() == want.len(), "interleaved-position", "into_decoder() stands at {} of {}", d.position(), want.len());
+        Ok(())
+    })?;
+    if side_w.iter().any(|b| *b) && side_w.iter().any(|b| !*b) { st.nontrivial(hash_of(&(&want, &side_w, &side_r))); st.class("interleaved/both sides write") } else { st.class("interleaved/one side writes") }
+    Ok(())
+}
+
 fn subs() -> Vec<Sub> {
     vec![
         Sub { prop: "C17", name: "family", rule: "value of one of 48 serde types (all primitives <= 64 bit, char, strings, serialize_bytes buffers, options, unit, unit/newtype/tuple/named structs, seqs, tuples, arrays, maps, externally/internally/adjacently/un-tagged enums, flatten, skip_serializing_if, renames, unknown-length seq/map, 25-field struct): bytes == independent model serializer (documented representation) and one well-formed item; from_slice == value with exact consumption (junk follows); wider heads -> same value; indefinite containers / chunked strings -> same value or error; unknown extra struct entry ignored; distinct by (type, bytes)",
@@ -477,6 +519,8 @@ fn subs() -> Vec<Sub> {
               kind: Kind::Random { quick: 300_000, thorough: 3_000_000, tape: 128, f: floats_through_bridge } },
         Sub { prop: "C05S", name: "bridge-ints", rule: "integer item = sign x head width (immediate, 1, 2, 4, 8 argument bytes; the argument need not be minimal for the width) x argument (2^k +- 3, type and surrogate boundaries, uniform): each of u8..u64, i8..i64, usize, isize through minicbor_serde::from_slice returns the value iff the mathematical value is representable (try_from over i128), else an error; char iff unsigned and a Unicode scalar value; the same verdict as element of a tuple / Vec and under Option; a deserialize_any visitor and an untagged enum see the value whenever it fits 64 bits; non-trivial = accepted by some but not all fixed-width integer targets",
               kind: Kind::Random { quick: 600_000, thorough: 6_000_000, tape: 64, f: ints_through_bridge } },
+        Sub { prop: "C18", name: "interleaved", rule: "1-8 values of shared types written to ONE stream, each through the bridge or natively (Serializer::encoder_mut / into_encoder / From<Encoder>): the stream is the concatenation of the values' encodings; read back from one Deserializer, each value through the bridge or natively (decoder_mut / into_decoder / From<Decoder>): equal values, final position = end; non-trivial = both sides wrote",
+              kind: Kind::Random { quick: 300_000, thorough: 3_000_000, tape: 256, f: interleaved } },
         Sub { prop: "C18", name: "long-documents", rule: "sequences / maps / nested sequences of 130-2500 elements (many None, unit, tuple and array elements) in the shared model: the same oracle as shared-model; cumulative effects (depth or element counters, budgets) need this many elements to show",
               kind: Kind::Random { quick: 3_000, thorough: 60_000, tape: 16384, f: c18_long } },
         Sub { prop: "C18", name: "shared-model", rule: "value of one of 52 types in the data model shared by both codecs: minicbor::to_vec == minicbor_serde::to_vec; each side's bytes decode through the other side to the value; re-framed encodings (wider heads: both must accept; indefinite containers / chunked strings) never yield two different values or a value different from the model's; distinct by (type, bytes)",
